@@ -1,393 +1,30 @@
 import RulioProofs.C13
-import RulioProofs.StateFrame
 
-/-! # C13 — away from the enumerated sites nothing panics (state level) -/
+/-! # C13 — away from the enumerated sites nothing panics (every public operation, both states, any store) -/
 
 namespace C13
 
-/-- no stored fact can make `GetRulePatterns` panic -/
-def WOK (s : St) : Prop := ∀ e, e ∈ s.facts → whenOK e.2 = true
+/-- every operation except the non-inherited `ListRules`, on a serving location whose State method bodies do not panic:
+no panic, no hang, and the location stays such a location -/
+theorem run_clean (op : PubOp) (k : KLoc) (h : Serving k) (hf : FaultFree k) (hop : op.localList = false) :
+    (run op k).2.isPanic = false ∧ (run op k).2.isHang = false ∧ Serving (run op k).1 ∧ FaultFree (run op k).1 := by
+  have := sat_run (cleanSpec (fun _ => False)) op (Or.inr (Or.inr hop)) k ⟨h, hf⟩
+  refine ⟨?_, this.1, this.2.2 (Or.inr rfl)⟩
+  rcases hr : (run op k).2 with _ | _ | s | _ <;> simp [Res.isPanic]
+  exact this.2.1 rfl s hr
 
-theorem WOK.le {s s' : St} (h : WOK s) (hle : StLe s s') : WOK s' :=
-  fun e he => h e (hle.facts.subset he)
-
-/-- result is not the panic error -/
-def NP {α β} (r : α × Except LErr β) : Prop := r.2 ≠ .error "panic"
-
-theorem perr_ne_panic (e : PErr) : perr e ≠ "panic" := by cases e <;> decide
-theorem merr_ne_panic (e : MErr) : merr e ≠ "panic" := by cases e <;> decide
-
-theorem matchesJ_err_ne_panic {p d : J} {e : LErr} (h : matchesJ p d = .error e) : e ≠ "panic" := by
-  unfold matchesJ at h
-  split at h
-  · simp at h
-  · simp only [Except.error.injEq] at h
-    rw [← h]; exact merr_ne_panic _
-
-theorem map_np {α β} {r : Except LErr α} {g : α → β} (h : r ≠ .error "panic") : r.map g ≠ .error "panic" := by
-  cases r with
-  | error e => intro h'; apply h; simpa [Except.map] using h'
-  | ok a => simp [Except.map]
-
-theorem getRulePattern_set_expires (r : Obj) (v : J) : getRulePattern (Obj.set r "expires" v) = getRulePattern r := by
-  unfold getRulePattern
-  rw [get?_set_ne r "when" "expires" v (by decide)]
-
-/-- the rule `extractRule` hands out has the `when` of the stored rule body -/
-theorem extractRule_when {fact : Obj} {req : Bool} {r fact' : Obj} (h : extractRule fact req = .ok (some r, fact'))
-    (hw : whenOK fact = true) : ∀ e, getRulePattern r ≠ .error e := by
-  unfold extractRule at h
-  unfold whenOK at hw
-  split at h
-  · rename_i r0 hr
-    rw [hr] at hw
-    simp only at hw
-    split at h
-    · simp only [Except.ok.injEq, Prod.mk.injEq, Option.some.injEq] at h
-      rw [← h.1, getRulePattern_set_expires]
-      intro e he; rw [he] at hw; simp at hw
-    · simp only [Except.ok.injEq, Prod.mk.injEq, Option.some.injEq] at h
-      rw [← h.1]
-      intro e he; rw [he] at hw; simp at hw
-  · split at h <;> simp at h
-  · split at h <;> simp at h
-
-theorem unindexRule_np {s : St} {id : String} {r : Obj} (h : ∀ e, getRulePattern r ≠ .error e) :
-    s.unindexRule id r ≠ .error "panic" := by
-  unfold St.unindexRule
-  cases hg : getRulePattern r with
-  | error e => exact absurd hg (h e)
-  | ok p =>
-    simp only [bind, Except.bind]
-    cases p with
-    | none => simp [pure, Except.pure]
-    | some pat =>
-      simp only
-      split
-      · rename_i e _
-        intro h'
-        simp only [Except.error.injEq] at h'
-        exact perr_ne_panic _ h'
-      · simp [pure, Except.pure]
-
-theorem unindexOf_np {s : St} {id : String} {fact : Obj} (hw : whenOK fact = true) :
-    s.unindexOf id fact ≠ .error "panic" := by
-  unfold St.unindexOf
-  cases he : extractRule fact false with
-  | error e => simp
-  | ok p =>
-    rcases p with ⟨r?, fact'⟩
-    cases r? with
-    | none => simp
-    | some r => exact unindexRule_np (extractRule_when he hw)
-
-theorem cands_ne_panic (s : St) (p : Obj) : s.cands p ≠ .error "panic" := by
-  unfold St.cands
-  split
-  · simp
-  · unfold TI.search
-    split
-    · intro h; simp only [Except.error.injEq] at h; exact absurd h (by decide)
-    · simp
-
-/-- the indexed `rem` / `search` family never panics on a state whose stored rules have a sound `when` -/
-theorem inp (now : Int) : ∀ f : Nat,
-    (∀ s id, WOK s → NP (St.irem f s id now)) ∧
-    (∀ s id, WOK s → NP (St.ideps f s id now)) ∧
-    (∀ s ids, WOK s → NP (St.iremAll f s ids now)) ∧
-    (∀ s p, WOK s → NP (St.isearch f s p now)) ∧
-    (∀ s p ids acc, WOK s → NP (St.isearchLoop f s p ids now acc)) := by
-  intro f
-  induction f with
-  | zero =>
-    refine ⟨?_, ?_, ?_, ?_, ?_⟩ <;> intros <;> (unfold NP; intro h; simp only [St.irem_zero, St.ideps_zero, St.iremAll_zero, St.isearch_zero, St.isearchLoop_zero, Except.error.injEq] at h; exact absurd h (by decide))
-  | succ f ih =>
-    obtain ⟨ih1, ih2, ih3, ih4, ih5⟩ := ih
-    have fr := iframe now f
-    have h5 : ∀ s p ids acc, WOK s → NP (St.isearchLoop (f + 1) s p ids now acc) := by
-      intro s p ids acc hw
-      cases ids with
-      | nil => rw [St.isearchLoop_nil]; unfold NP; simp
-      | cons i rest =>
-        rw [St.isearchLoop_cons]
-        cases amGet s.facts i with
-        | none => exact ih5 _ _ _ _ hw
-        | some fact =>
-          simp only
-          split
-          · exact ih5 _ _ _ _ (hw.le (fr.1 s i))
-          · split
-            · rename_i e he
-              unfold NP; intro h; simp only [Except.error.injEq] at h
-              exact matchesJ_err_ne_panic he h
-            · exact ih5 _ _ _ _ hw
-    have h4 : ∀ s p, WOK s → NP (St.isearch (f + 1) s p now) := by
-      intro s p hw
-      rw [St.isearch_succ]
-      split
-      · rename_i e he
-        unfold NP; intro h; simp only [Except.error.injEq] at h
-        exact cands_ne_panic s p (by rw [he, h])
-      · exact ih5 _ _ _ _ hw
-    have h3 : ∀ s ids, WOK s → NP (St.iremAll (f + 1) s ids now) := by
-      intro s ids hw
-      cases ids with
-      | nil => rw [St.iremAll_nil]; unfold NP; simp
-      | cons i rest =>
-        rw [St.iremAll_cons]
-        split
-        · rename_i e he
-          unfold NP; intro h; simp only [Except.error.injEq] at h
-          exact ih1 s i hw (by rw [he, h])
-        · exact ih3 _ _ (hw.le (fr.1 s i))
-    have h2 : ∀ s id, WOK s → NP (St.ideps (f + 1) s id now) := by
-      intro s id hw
-      rw [St.ideps_succ]
-      split
-      · unfold NP; simp
-      · split
-        · rename_i e he
-          unfold NP; intro h; simp only [Except.error.injEq] at h
-          exact ih4 s _ hw (by rw [he, h])
-        · exact ih3 _ _ (hw.le (fr.2.2.2.1 s _))
-    have h1 : ∀ s id, WOK s → NP (St.irem (f + 1) s id now) := by
-      intro s id hw
-      rw [St.irem_succ]
-      split
-      · rename_i fact hg
-        split
-        · rename_i e he
-          unfold NP; intro h; simp only [Except.error.injEq] at h
-          have hwf : whenOK fact = true := hw (id, fact) (amGet_some_mem hg)
-          exact unindexOf_np hwf (by rw [he, h])
-        · rename_i s1 hu
-          unfold NP
-          exact map_np (ih2 _ _ (hw.le (idel_le (unindexOf_same hu) id fact)))
-      · unfold NP
-        exact map_np (ih2 _ _ hw)
-    exact ⟨h1, h2, h3, h4, h5⟩
-
-/-! ## the panic-propagating loops of the wrapper model -/
-
-theorem isearchLoopP_zero (s : St) (p : Obj) (ids : List String) (now : Int) (acc) :
-    isearchLoopP 0 s p ids now acc = (s, .error "fuel") := rfl
-theorem isearchLoopP_nil (f : Nat) (s : St) (p : Obj) (now : Int) (acc) :
-    isearchLoopP (f + 1) s p [] now acc = (s, .ok acc) := rfl
-
-theorem isearchLoopP_cons (f : Nat) (s : St) (p : Obj) (i : String) (rest : List String) (now : Int) (acc) :
-    isearchLoopP (f + 1) s p (i :: rest) now acc =
-      match amGet s.facts i with
-      | none => isearchLoopP f s p rest now acc
-      | some fact =>
-        match checkExpiration fact now with
-        | .ok true =>
-          (match (St.irem f s i now).2 with
-           | .error e => if e == "panic" then ((St.irem f s i now).1, .error e) else isearchLoopP f (St.irem f s i now).1 p rest now acc
-           | .ok _ => isearchLoopP f (St.irem f s i now).1 p rest now acc)
-        | _ => match matchesJ (.obj p) (.obj fact) with
-          | .error e => (s, .error e)
-          | .ok bss => isearchLoopP f s p rest now (if bss.isEmpty then acc else acc ++ [(i, fact, bss)]) := by
-  rw [isearchLoopP]
-  cases hg : amGet s.facts i with
-  | none => rfl
-  | some fact =>
-    simp only
-    rcases checkExpiration fact now with e | b
-    · rfl
-    · cases b
-      · rfl
-      · simp only
-        rcases St.irem f s i now with ⟨s1, r | r⟩ <;> rfl
-
-theorem ne_panic_of_fuel : ("fuel" : LErr) ≠ "panic" := by decide
-
-theorem isearchLoopP_le (now : Int) (p : Obj) : ∀ (f : Nat) (s : St) (ids : List String) (acc),
-    StLe s (isearchLoopP f s p ids now acc).1 := by
-  intro f
-  induction f with
-  | zero => intros; exact StLe.refl _
-  | succ f ih =>
-    intro s ids acc
-    cases ids with
-    | nil => exact StLe.refl _
-    | cons i rest =>
-      rw [isearchLoopP_cons]
-      have hle : StLe s (St.irem f s i now).1 := (iframe now f).1 s i
-      cases amGet s.facts i with
-      | none => exact ih _ _ _
-      | some fact =>
-        simp only
-        split
-        · split
-          · split
-            · exact hle
-            · exact hle.trans (ih _ _ _)
-          · exact hle.trans (ih _ _ _)
-        · split
-          · exact StLe.refl _
-          · exact ih _ _ _
-
-theorem isearchLoopP_np (now : Int) (p : Obj) : ∀ (f : Nat) (s : St) (ids : List String) (acc), WOK s →
-    NP (isearchLoopP f s p ids now acc) := by
-  intro f
-  induction f with
-  | zero => intro s ids acc _; unfold NP; rw [isearchLoopP_zero]; intro h; simp only [Except.error.injEq] at h; exact ne_panic_of_fuel h
-  | succ f ih =>
-    intro s ids acc hw
-    cases ids with
-    | nil => unfold NP; rw [isearchLoopP_nil]; simp
-    | cons i rest =>
-      rw [isearchLoopP_cons]
-      have hle : StLe s (St.irem f s i now).1 := (iframe now f).1 s i
-      have hnp : (St.irem f s i now).2 ≠ .error "panic" := (inp now f).1 s i hw
-      cases amGet s.facts i with
-      | none => exact ih _ _ _ hw
-      | some fact =>
-        simp only
-        split
-        · split
-          · rename_i e he
-            split
-            · rename_i hp
-              have : e = "panic" := by simpa using hp
-              exact absurd (by rw [he, this]) hnp
-            · exact ih _ _ _ (hw.le hle)
-          · exact ih _ _ _ (hw.le hle)
-        · split
-          · rename_i e he
-            unfold NP; intro h; simp only [Except.error.injEq] at h
-            exact matchesJ_err_ne_panic he h
-          · exact ih _ _ _ hw
-
-theorem isearchP_le (s : St) (p : Obj) (now : Int) : StLe s (isearchP s p now).1 := by
-  unfold isearchP
-  split
-  · exact StLe.refl _
-  · simp only
-    split
-    · exact StLe.refl _
-    · exact isearchLoopP_le now p _ _ _ _
-
-theorem isearchP_np (s : St) (p : Obj) (now : Int) (hw : WOK s) : NP (isearchP s p now) := by
-  unfold isearchP
-  split
-  · unfold NP; intro h; simp only [Except.error.injEq] at h; exact ne_panic_of_fuel h
-  · simp only
-    split
-    · rename_i e he
-      unfold NP; intro h; simp only [Except.error.injEq] at h
-      exact cands_ne_panic s p (by unfold St.cands; rw [he, h])
-    · exact isearchLoopP_np now p _ _ _ _ hw
-
-theorem ifindLoopP_zero (now : Int) (s : St) (ids : List String) (acc) : ifindLoopP now 0 s ids acc = (s, .error "fuel") := rfl
-theorem ifindLoopP_nil (now : Int) (f : Nat) (s : St) (acc) : ifindLoopP now (f + 1) s [] acc = (s, .ok acc) := rfl
-theorem ifindLoopP_cons (now : Int) (f : Nat) (s : St) (i : String) (rest : List String) (acc) :
-    ifindLoopP now (f + 1) s (i :: rest) acc =
-      match checkExpiration ((amGet s.facts i).getD []) now with
-      | .ok true =>
-        (match (St.irem s.fuel s i now).2 with
-         | .error e => if e == "panic" then ((St.irem s.fuel s i now).1, .error e) else ifindLoopP now f (St.irem s.fuel s i now).1 rest acc
-         | .ok _ => ifindLoopP now f (St.irem s.fuel s i now).1 rest acc)
-      | _ =>
-        match amGet s.facts i with
-        | none => (s, .error "lostRule")
-        | some fct =>
-          match extractRule fct true with
-          | .error e => (s, .error e)
-          | .ok (some body, _) => ifindLoopP now f s rest (acc ++ [(i, body)])
-          | .ok (none, _) => (s, .error "ruleBodyMissing") := by
-  rw [ifindLoopP]
-  rcases checkExpiration ((amGet s.facts i).getD []) now with e | b
-  · rfl
-  · cases b
-    · rfl
-    · simp only
-      rcases St.irem s.fuel s i now with ⟨s1, r | r⟩ <;> rfl
-
-theorem extractRule_err_ne_panic {fact : Obj} {req : Bool} {e : LErr} (h : extractRule fact req = .error e) : e ≠ "panic" := by
-  unfold extractRule at h
-  repeat' split at h
-  all_goals (simp only [Except.error.injEq, reduceCtorEq] at h)
-  all_goals (rw [← h]; decide)
-
-theorem ifindLoopP_le (now : Int) : ∀ (f : Nat) (s : St) (ids : List String) (acc), StLe s (ifindLoopP now f s ids acc).1 := by
-  intro f
-  induction f with
-  | zero => intros; exact StLe.refl _
-  | succ f ih =>
-    intro s ids acc
-    cases ids with
-    | nil => exact StLe.refl _
-    | cons i rest =>
-      rw [ifindLoopP_cons]
-      have hle : StLe s (St.irem s.fuel s i now).1 := (iframe now s.fuel).1 s i
-      split
-      · split
-        · split
-          · exact hle
-          · exact hle.trans (ih _ _ _)
-        · exact hle.trans (ih _ _ _)
-      · split
-        · exact StLe.refl _
-        · split
-          · exact StLe.refl _
-          · exact ih _ _ _
-          · exact StLe.refl _
-
-theorem ifindLoopP_np (now : Int) : ∀ (f : Nat) (s : St) (ids : List String) (acc), WOK s → NP (ifindLoopP now f s ids acc) := by
-  intro f
-  induction f with
-  | zero => intro s ids acc _; unfold NP; rw [ifindLoopP_zero]; intro h; simp only [Except.error.injEq] at h; exact ne_panic_of_fuel h
-  | succ f ih =>
-    intro s ids acc hw
-    cases ids with
-    | nil => unfold NP; rw [ifindLoopP_nil]; simp
-    | cons i rest =>
-      rw [ifindLoopP_cons]
-      have hle : StLe s (St.irem s.fuel s i now).1 := (iframe now s.fuel).1 s i
-      have hnp : (St.irem s.fuel s i now).2 ≠ .error "panic" := (inp now s.fuel).1 s i hw
-      split
-      · split
-        · rename_i e he
-          split
-          · rename_i hp
-            have : e = "panic" := by simpa using hp
-            exact absurd (by rw [he, this]) hnp
-          · exact ih _ _ _ (hw.le hle)
-        · exact ih _ _ _ (hw.le hle)
-      · split
-        · unfold NP; intro h; simp only [Except.error.injEq] at h; exact absurd h (by decide)
-        · split
-          · rename_i e he
-            unfold NP; intro h; simp only [Except.error.injEq] at h
-            exact extractRule_err_ne_panic he h
-          · exact ih _ _ _ hw
-          · unfold NP; intro h; simp only [Except.error.injEq] at h; exact absurd h (by decide)
-
-theorem ifindRulesP_le (s : St) (ev : Obj) (now : Int) : StLe s (ifindRulesP s ev now).1 := by
-  unfold ifindRulesP
-  split
-  · exact StLe.refl _
-  · exact ifindLoopP_le now _ _ _ _
-
-theorem ifindRulesP_np (s : St) (ev : Obj) (now : Int) (hw : WOK s) : NP (ifindRulesP s ev now) := by
-  unfold ifindRulesP
-  split
-  · unfold NP; intro h; simp only [Except.error.injEq] at h; exact perr_ne_panic _ h
-  · exact ifindLoopP_np now _ _ _ _ hw
-
-/-- indexed state: remove, search and rule search never panic when every stored rule body has a sound `when`, and they
-keep that invariant (they only delete facts) -/
-theorem indexed_np (s : St) (now : Int) (hk : s.kind = .indexed) (hw : WOK s) :
-    (∀ id, (s.rem id now).2 ≠ .error "panic" ∧ WOK (s.rem id now).1) ∧
-    (∀ p, (searchK s p now).2 ≠ .error "panic" ∧ WOK (searchK s p now).1) ∧
-    (∀ ev, (findRulesK s ev now).2 ≠ .error "panic" ∧ WOK (findRulesK s ev now).1) := by
-  refine ⟨fun id => ?_, fun p => ?_, fun ev => ?_⟩
-  · unfold St.rem; rw [hk]
-    exact ⟨(inp now s.fuel).1 s id hw, hw.le ((iframe now s.fuel).1 s id)⟩
-  · unfold searchK; rw [hk]
-    exact ⟨isearchP_np s p now hw, hw.le (isearchP_le s p now)⟩
-  · unfold findRulesK; rw [hk]
-    exact ⟨ifindRulesP_np s ev now hw, hw.le (ifindRulesP_le s ev now)⟩
+/-- every public operation on a serving location whose State method bodies do not panic: it answers, the location stays
+such a location, and the only panic is the nil dereference of the non-inherited `ListRules` -/
+theorem run_no_panic_off_sites (op : PubOp) (k : KLoc) (h : Serving k) (hf : FaultFree k) :
+    (run op k).2.isHang = false ∧ Serving (run op k).1 ∧ FaultFree (run op k).1 ∧
+    (∀ site, (run op k).2 = .panic site → site = .listRulesNil ∧ op.localList = true) := by
+  have := sat_run (cleanSpec (fun s => s = .listRulesNil)) op (Or.inr (Or.inl rfl)) k ⟨h, hf⟩
+  refine ⟨this.1, (this.2.2 (Or.inr rfl)).1, (this.2.2 (Or.inr rfl)).2, fun site hs => ⟨this.2.1 rfl site hs, ?_⟩⟩
+  cases hop : op.localList with
+  | true => rfl
+  | false =>
+    have h2 := (run_clean op k h hf hop).1
+    rw [hs] at h2
+    exact absurd h2 (by simp [Res.isPanic])
 
 end C13
